@@ -485,6 +485,10 @@ func randomJob(idx int, seed int64, i, total, rcases, maxLeaves int) worldJob {
 				c2 := cloneCase(c)
 				c2.code = append([]byte(nil), ct.code...)
 				add(c2, "empty-code+code", false)
+				// ... and a contract's code with ITS hash in the key, claimed for the account without code
+				c3 := cloneCase(c)
+				c3.keyHash, c3.code = keccak(ct.code), append([]byte(nil), ct.code...)
+				add(c3, "eoa+foreign-code", false)
 			}
 		}
 		info := map[string]any{"src": "random", "leaves": n, "contracts": len(w.contracts), "nodes": len(w.reg.nodes)}
